@@ -6,39 +6,48 @@
   ENABLED, EXISTS/RECENT/EXPUNGE, SEARCH, ESEARCH, SORT, THREAD and FETCH (UID, RFC822.SIZE,
   MODSEQ, FLAGS, ENVELOPE, BODY/BODYSTRUCTURE).  `clientParse {}` is the repaired reader,
   `Legacy.clientParse` the one before the repairs.  Helper lemmas: Lemmas/ClientParseHoare.lean
-  (a Hoare logic over the parser monad) and Lemmas/ClientParseCost.lean.
+  (a Hoare logic over the parser monad: invariants), ClientParseFuel.lean (remaining input vs fuel),
+  ClientParseCostAll.lean / ClientParseCost.lean (potential argument for the ghost cost) and
+  ClientParseInvalid.lean (reader-level error facts).
 
   Proved, for every input (no bound on its length or nesting):
+    fuel_suffices             the model's recursion fuel never runs out (any configuration): every
+                              statement below is about a real outcome of the reader
     parse_no_panic            the reader never reaches the one panic site of the decoder
                               (UnreadByte without a preceding ReadByte)
     depth_bounded             the nesting ghost never exceeds the decoder's limit
-    delivered_nonzero         no message number 0 is handed to the caller          ┐
-    delivered_sets_static     SEARCH/ESEARCH/COPYUID sets handed over are canonical│ invalid_is_error
-                              and without "*"                                      ┘
+    delivered_depth_bounded   no tree handed to the caller (body structure, thread tree) is deeper
+                              than the limit
+    delivered_nonzero         every message number handed over is a non-zero 32-bit number
+    delivered_sets_static     SEARCH/ESEARCH/COPYUID sets handed over are canonical, without "*"
+    invalid_is_error          the above as one statement, together with the reader-level facts
+                              behind it: 0 / "*" / one nesting level too many / a number out of
+                              range / a literal with a malformed header are answered with an
+                              error by the reader that meets them, in whatever state
     accessors_no_panic        AllSeqNums/AllUIDs/Nums do not panic on what was handed over
-    enter_ok_lt               a level of nesting is entered only below the limit
+    cost_linear               ghost cost (byte reads) of the whole client ≤ 61·|input| + 41;
+                              readResponse_cost_linear per response; sortLoop/searchLoop with
+                              tighter constants (4·|input| + c)
     nums_length_is_cardinality / accessor_cost_not_bounded_by_input
                               the enumerating accessor returns exactly `card s` numbers, and a
-                              40-byte response exists whose set has 4294967295 members (the
+                              52-byte response exists whose set has 4294967295 members (the
                               machine-checked form of finding F25)
-    sortLoop_cost_linear, searchLoop_cost_linear
-                              ghost cost (byte reads) of the number-list readers ≤ 4·|input| + c
-  Concrete instances of `invalid_is_error` (zero, "*", overflow, nesting, malformed literal are
-  answered with an error) and the `Legacy` counterexamples for every repaired defect are proved by
-  kernel evaluation.
+    enter_ok_lt               a level of nesting is entered only below the limit
+  Concrete streams (zero, "*", overflow, nesting, malformed literal are answered with an error)
+  and the `Legacy` counterexamples for every repaired defect are proved by kernel evaluation; they
+  are instances of `invalid_is_error`, not derived from it.
 
   Validated by the oracle on every run, not proved: the tie between the model and the Go code;
-  the depth of the *delivered* trees (`deliveredDepth`; `depth_bounded` bounds the depth the parser
-  reaches, which is what the trees are built from);
-  panics below the modelled interface (mime/net/mail/go-message/utf7); time and memory (measured);
-  linear ghost cost of the remaining parsers (FETCH, THREAD, ESEARCH, status responses); that
-  `fuel = 2·|input| + 8` never runs out (the driver reports `model-out-of-fuel` if it did).
+  panics below the modelled interface (mime/net/mail/go-message/utf7); real time and memory
+  (measured); the readers outside the model (LIST, STATUS, QUOTA, METADATA, NAMESPACE, body
+  section literals).
 -/
 import GoImap.Model.ClientParse
 import GoImap.Lemmas.ClientParseHoare
 import GoImap.Lemmas.ClientParseCost
 import GoImap.Lemmas.ClientParseFuel
 import GoImap.Lemmas.ClientParseInvalid
+import GoImap.Lemmas.ClientParseCostAll
 namespace GoImap.C11
 open GoImap GoImap.ClientParse
 
@@ -164,7 +173,25 @@ theorem accessor_cost_not_bounded_by_input :
     card [⟨1, 4294967295⟩] = 4294967295 := by
   refine ⟨by decide, by decide +kernel, by decide +kernel, by decide⟩
 
-/-! ### ghost cost of the number-list readers -/
+/-! ### ghost cost -/
+
+/-- **cost_linear.** Whatever the stream, the whole client (every modelled reader: status
+    responses and their codes, SEARCH, ESEARCH, SORT, THREAD, FETCH with FLAGS / ENVELOPE /
+    BODYSTRUCTURE, …, and the read loop around them) performs at most 61 byte reads per input
+    byte plus a constant.  Holds for the repaired reader and for `Legacy` alike. -/
+theorem cost_linear (cfg : Cfg) (tag : Bytes) (kind : Kind) (inp : Bytes) :
+    (clientParse cfg tag kind inp).cost ≤ 61 * inp.length + 41 :=
+  clientParse_cost cfg tag kind inp
+
+/-- one response, from any decoder state: at most 20 reads per byte it consumes plus 40
+    (`Phi20 d = d.cost + 20·|d.inp|`) -/
+theorem readResponse_cost_linear (fuel : Nat) (cfg : Cfg) (d d' : Dec)
+    (h : readResponse fuel cfg d = .ok () d' ∨ readResponse fuel cfg d = .err d') :
+    d'.cost + 20 * d'.inp.length ≤ d.cost + 20 * d.inp.length + 40 := by
+  have := (ct_readResponse fuel cfg).run d
+  rcases h with h | h <;> rw [h] at this <;> simp only [CTPost, Phi20] at this <;> omega
+
+/-! ### ghost cost of the number-list readers, with a tighter constant -/
 
 /-- **cost_linear (SORT).** Reading a SORT response costs at most four byte reads per input
     byte, plus a constant: descending numbers are not expensive to *read* (F27 is about what
